@@ -87,6 +87,33 @@ pub fn starts() -> Vec<Vec<Op>> {
 
 /// All sequences of length `n` over the alphabet (optionally thinned to 1/`stride`),
 /// for every MIN_ALIGN and every start.
+/// Zero-sized element types through every slice initialiser: the initialiser (closure, iterator, Clone, Default)
+/// must still be called once per element, in order, even though no byte is written.
+pub fn zinit() -> Vec<Program> {
+    use Op::*;
+    let mut out = Vec::new();
+    for &ma in MAS.iter() {
+        for fallible in [false, true] {
+            for len in [1usize, 5, 64] {
+                let mut ops = vec![New { cap: None, fallible: false }, l(3, 1)];
+                for how in 0..5u8 {
+                    ops.push(Fill { ty: 0, len, how, fallible });
+                }
+                ops.push(SliceCopy { ty: 0, len, fallible });
+                ops.push(SliceClone { ty: 0, len, fallible });
+                ops.push(TryFill { ty: 0, len, fail_at: -1, iter: false });
+                ops.push(TryFill { ty: 0, len, fail_at: -1, iter: true });
+                ops.push(TryFill { ty: 0, len, fail_at: (len as i64) - 1, iter: false });
+                ops.push(TryFill { ty: 0, len, fail_at: 0, iter: true });
+                ops.push(Val { ty: 0, with: true, fallible });
+                ops.push(l(8, 8));
+                out.push(Program { ma, ops, tag: "zinit".into() });
+            }
+        }
+    }
+    out
+}
+
 pub fn history(n: usize, stride: usize, seed: u64) -> Vec<Program> {
     let alpha = alphabet();
     let starts = starts();
@@ -546,6 +573,7 @@ pub fn by_name(name: &str, tier: &str, seed: u64) -> Vec<Program> {
         }
         "offset" => offset(thorough),
         "uniform" => uniform(thorough),
+        "zinit" => zinit(),
         "fault" => fault(thorough, seed),
         "limit" => limit(thorough),
         "trywith" => trywith(thorough),
